@@ -437,7 +437,7 @@ class WriteFaults(Engine):
             return {"kind": "directory", "entries": entries, "exists": True, "is_file": False, "mode": "sequence",
                     "input_name": "input.gbk", "logfile": rng.choice(["inside", "outside", "none"]),
                     "explicit_output_dir": True, "level": rng.choice(["pipeline", "pipeline", "function"]),
-                    "verbosity": rng.choice(["", "", "--verbose", "--debug"])}
+                    "verbosity": rng.choice(["", "", "--verbose", "--debug"]), "profiling": rng.random() < 0.25}
         return {"kind": "directory", "entries": entries,
                 "dirname": rng.choice(["out", "out", "out", "run[1]", "results*", "my results", "a?b"]),
                 "exists": rng.random() < 0.9, "is_file": rng.random() < 0.05,
@@ -446,7 +446,7 @@ class WriteFaults(Engine):
                 "logfile": rng.choice(["inside", "outside", "none"]),
                 "explicit_output_dir": rng.random() < 0.8,
                 "level": rng.choice(["function", "function", "pipeline"]),
-                "verbosity": rng.choice(["", "", "--verbose", "--debug"])}
+                "verbosity": rng.choice(["", "", "--verbose", "--debug"]), "profiling": rng.random() < 0.25}
 
     # ------------------------------------------------------------ execution
     def execute(self, scenario: Dict[str, Any], prop: str) -> RunResult:
@@ -698,6 +698,8 @@ class WriteFaults(Engine):
                 if scenario.get("verbosity"):
                     inv["args"] = args + [scenario["verbosity"]]
                     inv["logging"] = True
+                if scenario.get("profiling"):
+                    inv["args"] = inv["args"] + ["--profiling"]      # a report is written into the output directory
                 result = P.invoke(inv, hook)
                 status = result["status"]
                 if status.startswith("raised:") and "AntismashInputError" not in status and "all records skipped" not in result.get("error", ""):
